@@ -29,11 +29,25 @@ type Server[StateT any] struct {
 func (s *Server[StateT]) Serve(ln net.Listener) error {
 	defer ln.Close()
 
+	var retryDelay time.Duration
+
 	for {
 		conn, err := ln.Accept()
 		if err != nil {
+			// running out of descriptors or a connection reset before it was accepted must not stop the server:
+			// wait a little and accept again (same approach as net/http)
+			if ne, ok := err.(net.Error); ok && ne.Temporary() { //nolint:staticcheck // no other way to detect this
+				retryDelay = min(max(2*retryDelay, 5*time.Millisecond), time.Second)
+				s.Logger.Warn("Accept failed, retrying", logutil.ErrorAttr(err), slog.Duration("delay", retryDelay))
+				time.Sleep(retryDelay)
+
+				continue
+			}
+
 			return fmt.Errorf("accept failed: %w", err)
 		}
+
+		retryDelay = 0
 
 		go s.serveConn(conn)
 	}
